@@ -808,3 +808,8 @@ V("c08-centroid-setter-validates-late", "fault", "C08", P + "convex_polyhedron.p
   "        self._vertices += np.asarray(value) - self.centroid\n        assert len(value) == 3, \"Centroid must be a point in 3-space.\"\n", rule="GUARD-5")
 V("c13-bounded-circle-cross-z", "fault", "C13", P + "convex_polygon.py",
   "        distances = np.linalg.norm(np.cross(points, deltas), axis=-1)\n", "        distances = np.abs(np.cross(points, deltas)[:, 2])\n", rule="FRAME-2")
+
+# QUAD on a regular weight table applied per corner column
+_QUAD_OLD = '            scalars = [\n                [5 / 3, 5 / 3, 5 / 3],\n                [[1], [1], [3]],\n                [[3], [1], [1]],\n                [[1], [3], [1]],\n            ]\n\n            q = np.zeros((abc.shape[0], 3, 4))\n\n            for i in range(4):\n                q[:, :, i] = np.sum(abc * scalars[i], axis=1)\n'
+V("c01-rw-quad-regular-table-columns", "rewrite", "C01", P + "convex_polyhedron.py", _QUAD_OLD, '            corner_weights = np.array(\n                [\n                    [5 / 3, 5 / 3, 5 / 3],\n                    [1.0, 1.0, 3.0],\n                    [3.0, 1.0, 1.0],\n                    [1.0, 3.0, 1.0],\n                ]\n            )\n\n            q = (\n                abc[:, 0, :, None] * corner_weights[:, 0]\n                + abc[:, 1, :, None] * corner_weights[:, 1]\n                + abc[:, 2, :, None] * corner_weights[:, 2]\n            )\n')
+V("c01-quad-regular-table-wrong-weight", "fault", "C01", P + "convex_polyhedron.py", _QUAD_OLD, '            corner_weights = np.array(\n                [\n                    [5 / 3, 5 / 3, 5 / 3],\n                    [1.0, 1.0, 2.0],\n                    [3.0, 1.0, 1.0],\n                    [1.0, 3.0, 1.0],\n                ]\n            )\n\n            q = (\n                abc[:, 0, :, None] * corner_weights[:, 0]\n                + abc[:, 1, :, None] * corner_weights[:, 1]\n                + abc[:, 2, :, None] * corner_weights[:, 2]\n            )\n', rule="QUAD")
